@@ -152,6 +152,7 @@ func init() {
 				}
 				res = append(res, c)
 			}
+			res = append(res, scanCandidates(env, "maxsat", env.Pick(15000, 250000), false, scanMaxSat)...)
 			return res
 		},
 		Cover: func(t core.Case, cov map[string]int) bool {
